@@ -7,6 +7,10 @@ Afterwards only three names of that namespace are replaced:
                zeros_like default to dtype=object, `np.linalg.norm` of an object array returns an opaque marker and
                `np.max(<that marker>, initial=...)` returns the positive symbol SCALE (assumption "SCALE": the scaling
                factor of build_system is an arbitrary positive real; every identity is decided for all its values);
+               np.any / np.all / np.count_nonzero take the EXACT truth value of every entry (an Sc is true iff it is not
+               identically zero), and abs() / np.abs / np.isclose / np.allclose are decided exactly when the operands are
+               constants of the field (|a-b| <= atol + rtol*|b| over QQ, defaults 1/10^5 and 1/10^8) or identically equal;
+               on a non-constant rational function they raise Unsupported (engine gap: Mode B never forks);
   * `eigh`  -> a stub returning (None, None) (the eigen-decomposition cannot run symbolically);
   * `Quadratic.solve_systems` -> its assumed contract SOLVE: the exact solution of the linear system whose matrix and
                scaling are the ones returned by the REAL build_system:  x = R * (a^-1 (R * rhs)),  R = diag(right_scaling).
@@ -293,11 +297,24 @@ class Sc:
     def __float__(self):
         raise Unsupported("float() of a Mode-B scalar")
 
+    def __abs__(self):
+        """Exact |.| of a CONSTANT of the field; the sign of a non-constant rational function is not decidable."""
+        q = self.const_value()
+        if q is None:
+            raise Unsupported("abs() of a non-constant Mode-B scalar: its sign is not decidable for all values of the symbols "
+                              "(Mode B never forks)")
+        return self if q >= 0 else Sc(-self.v, self.F)
+
     def __repr__(self):
         return str(self.v)
 
     def is_zero(self):
         return self.F.is_zero(self.v)
+
+    def const_value(self):
+        """The Fraction this scalar equals if it is a constant of the field (no generator occurs; or identically zero modulo the
+        reciprocal relations), else None."""
+        return const_of(self.F, self.v)
 
     def diff(self, name):
         """Partial derivative w.r.t. a generator on which no reciprocal relation depends."""
@@ -369,6 +386,68 @@ def short(v, k=260):
 
 
 # ---------------------------------------------------------------------------------------------------------
+# exact decisions on scalars: constants, truth values, closeness
+# ---------------------------------------------------------------------------------------------------------
+RTOL_DEFAULT = Fraction(1, 10 ** 5)      # numpy's defaults rtol=1e-05, atol=1e-08 of isclose / allclose, as exact rationals
+ATOL_DEFAULT = Fraction(1, 10 ** 8)
+
+
+def const_of(F, v):
+    """Fraction equal to the field element v if v is a constant (ground numerator and denominator, or identically zero modulo
+    the reciprocal relations), else None."""
+    if v == 0:
+        return Fraction(0)
+    if v.numer.is_ground and v.denom.is_ground:
+        a, b = v.numer.LC, v.denom.LC
+        return Fraction(int(a.numerator), int(a.denominator)) / Fraction(int(b.numerator), int(b.denominator))
+    if F.is_zero(v):
+        return Fraction(0)
+    return None
+
+
+def truth(a):
+    """bool array of the exact truth values of the entries of `a`: an Sc is true iff it is not identically zero."""
+    a = _np.asarray(a, dtype=object)
+    out = _np.empty(a.shape, dtype=bool)
+    for idx in _np.ndindex(a.shape):
+        e = a[idx]
+        out[idx] = (not e.is_zero()) if isinstance(e, Sc) else bool(e)
+    return out
+
+
+def _tolerance(F, t, default, what):
+    if t is None:
+        return default
+    w = F.lift(t)
+    q = None if w is None else const_of(F, w)
+    if q is None:
+        raise Unsupported(f"np.isclose: {what} is not a constant number")
+    return q
+
+
+def close(F, x, y, rtol=None, atol=None):
+    """Exact decision of numpy's closeness test  |x - y| <= atol + rtol * |y|  for numbers / Sc of F.
+
+    Identically equal operands are close whatever they are.  Otherwise the test is decided only when it does not depend on the
+    symbols (x - y and y constants of the field); a comparison involving a non-constant rational function has no truth value
+    that holds for all values of the symbols and Mode B never forks: Unsupported (an engine gap, not a property violation).
+    Tolerances given as floats are converted exactly like every other float; the defaults are 1/10^5 and 1/10^8."""
+    rt = _tolerance(F, rtol, RTOL_DEFAULT, "rtol")
+    at = _tolerance(F, atol, ATOL_DEFAULT, "atol")
+    wx, wy = F.lift(x), F.lift(y)
+    if wx is None or wy is None:
+        raise Unsupported(f"np.isclose: non-numeric operand {x!r} / {y!r}")
+    d = wx - wy
+    if F.is_zero(d):
+        return True
+    qd, qy = const_of(F, d), const_of(F, wy)
+    if qd is None or qy is None:
+        raise Unsupported("np.isclose / np.allclose on a non-constant Mode-B scalar: |a - b| <= atol + rtol * |b| is not decidable "
+                          "for all values of the symbols (Mode B never forks): " + short(wx, 80) + " vs " + short(wy, 80))
+    return abs(qd) <= at + rt * abs(qy)
+
+
+# ---------------------------------------------------------------------------------------------------------
 # numpy proxy
 # ---------------------------------------------------------------------------------------------------------
 class _NormMarker:
@@ -383,6 +462,19 @@ def _ctx_of(a):
         if isinstance(e, Sc):
             return e.F
     return None
+
+
+def _sc_ctx(a):
+    """Field of the first Sc found in `a` (scalar, array or nested list); None for purely numeric arguments."""
+    if isinstance(a, Sc):
+        return a.F
+    if a is None or isinstance(a, (bool, int, float, _np.generic)) or (isinstance(a, _np.ndarray) and a.dtype != object):
+        return None
+    return _ctx_of(a)
+
+
+def _has_sc(a):
+    return _sc_ctx(a) is not None
 
 
 class _LinalgProxy:
@@ -430,6 +522,37 @@ class NPProxy:
                 raise Unsupported("np.max of a symbolic norm vector in an unexpected form")
             return _ctx_of(a.src).scale
         return _np.max(a, *args, **kw)
+
+    # -- exact truth values / closeness of arrays holding Sc scalars (plain numeric arguments are forwarded to numpy) -------
+    def any(self, a, *args, **kw):
+        """True iff some entry is not identically zero (decided exactly by FieldCtx.is_zero)."""
+        return _np.any(truth(a) if _has_sc(a) else a, *args, **kw)
+
+    def all(self, a, *args, **kw):
+        return _np.all(truth(a) if _has_sc(a) else a, *args, **kw)
+
+    def count_nonzero(self, a, *args, **kw):
+        return _np.count_nonzero(truth(a) if _has_sc(a) else a, *args, **kw)
+
+    def abs(self, x, *args, **kw):
+        """Entrywise Sc.__abs__ (exact for constants, Unsupported for a non-constant entry)."""
+        if isinstance(x, Sc):
+            return abs(x)
+        return _np.abs(x, *args, **kw)
+    absolute = abs
+
+    def isclose(self, a, b, rtol=None, atol=None, equal_nan=False):
+        F = _sc_ctx(a) or _sc_ctx(b) or _sc_ctx(rtol) or _sc_ctx(atol)
+        if F is None:
+            return _np.isclose(a, b, rtol=1e-5 if rtol is None else rtol, atol=1e-8 if atol is None else atol, equal_nan=equal_nan)
+        A, B = _np.broadcast_arrays(_np.asarray(a, dtype=object), _np.asarray(b, dtype=object))
+        out = _np.empty(A.shape, dtype=bool)
+        for idx in _np.ndindex(A.shape):
+            out[idx] = close(F, A[idx], B[idx], rtol, atol)
+        return out if out.ndim else _np.bool_(out[()])
+
+    def allclose(self, a, b, rtol=None, atol=None, equal_nan=False):
+        return bool(_np.all(self.isclose(a, b, rtol=rtol, atol=atol, equal_nan=equal_nan)))
 
 
 def _eigh_stub(a, *args, **kw):
@@ -761,6 +884,32 @@ def rational_vector(label, n):
     return [rand_q(rng) for _ in range(n)]
 
 
+def fractions_of(a):
+    """Nested list of the Fractions held by an array of numbers / CONSTANT Sc scalars."""
+    def one(e):
+        q = e.const_value() if isinstance(e, Sc) else Fraction(e)
+        if q is None:
+            raise Unsupported("fractions_of: non-constant Mode-B scalar")
+        return q
+    a = _np.asarray(a, dtype=object)
+    return [one(e) for e in a] if a.ndim == 1 else [[one(e) for e in r] for r in a]
+
+
+def rational_new_point(label, x_base, xpt, k, scale=1, tries=200):
+    """Seeded generic rational ABSOLUTE point x_new (list of Fractions) such that the rational interpolation set (x_base, xpt)
+    with point k replaced by x_new is still poised (det W != 0); x_new - x_base is `scale` times a small generic rational."""
+    xb, X = fractions_of(x_base), fractions_of(xpt)
+    n = len(xb)
+    rng = rng_for("newpoint:" + label)
+    Fq = FieldCtx([])
+    for _ in range(tries):
+        d = [rand_q(rng) * scale for _ in range(n)]
+        Xn = [[d[t] if j == k else X[t][j] for j in range(len(X[t]))] for t in range(n)]
+        if det(Fq, kkt_matrix(Fq, lift_array(Fq, Xn))) != 0:
+            return [xb[t] + d[t] for t in range(n)]
+    raise Unsupported(f"no rational point keeping the set poised found for {label}")
+
+
 # ---------------------------------------------------------------------------------------------------------
 # case runner
 # ---------------------------------------------------------------------------------------------------------
@@ -808,6 +957,28 @@ def selftest():
         and F.is_zero(2 * inv[0][1] + w / u * inv[1][1] - 1) and F.is_zero(det(F, [[u, F.K(1)], [F.K(2), w / u]]) - (w - 2))
     if not ok:
         raise Unsupported("modeb self-test failed: exact_inverse / det")
+    # exact truth values, abs and closeness (NPProxy.any / all / abs / isclose / allclose)
+    P = NPProxy()
+    su, z = F.sym("u"), F.sym("u") - F.sym("u")
+    tiny, small = F.const(Fraction(1, 10 ** 9)), F.const(Fraction(1, 10 ** 7))
+
+    def undecidable(fn):
+        try:
+            fn()
+        except Unsupported:
+            return True
+        return False
+    ok = (not P.any(arr([0, z, 0.0])) and P.any(arr([0, z, su])) and P.all(arr([1, su])) and not P.all(arr([su, z]))
+          and abs(F.const(Fraction(-3, 2))) == Fraction(3, 2) and P.abs(arr([-2, F.const(-1)]))[1] == 1 and abs(z) == 0
+          and bool(P.isclose(tiny, 0.0)) and not bool(P.isclose(small, 0.0)) and not bool(P.isclose(-small, 0.0))
+          and bool(P.isclose(F.const(10 ** 6 + 1), 10 ** 6)) and not bool(P.isclose(F.const(10 ** 6 + 11), 10 ** 6))
+          and bool(P.isclose(F.const(Fraction(1, 10 ** 8)), 0.0)) and not bool(P.isclose(F.const(Fraction(1, 10 ** 8) + Fraction(1, 10 ** 30)), 0.0))
+          and bool(P.isclose(su, su + z)) and P.allclose(arr([su, tiny]), arr([su, 0])) and not P.allclose(arr([su, small]), arr([su, 0]))
+          and list(P.isclose(arr([tiny, small]), 0.0)) == [True, False] and bool(P.isclose(small, 0.0, atol=1e-6))
+          and undecidable(lambda: P.isclose(su, 0.0)) and undecidable(lambda: abs(su)) and undecidable(lambda: P.allclose(arr([su]), arr([su + 1])))
+          and bool(P.isclose(1.0, 1.0 + 1e-9)) and not bool(P.any(_np.zeros(2))))
+    if not ok:
+        raise Unsupported("modeb self-test failed: exact any / all / abs / isclose")
     _SELFTEST_DONE = True
 
 
